@@ -377,9 +377,85 @@ def gateaux_terminals(ctx, rep):
     cmp(rep, rule + "/relation", h, "vector q, vector w: (dq/dw)[a,b] v[b]", got, T((3,), (), (), data), ctx)
 
 
+def derivative_arguments(ctx, rep):
+    """C02-pair: formoperators._handle_derivative_arguments lifted: the direction paired with each coefficient
+    is the tensor that carries the given argument in exactly the requested component(s) and zero elsewhere."""
+    import itertools as _it
+
+    from ..ctorlift import CtorHarness
+
+    prog = ctx.prog
+    fn = prog.get_function("ufl.formoperators", "_handle_derivative_arguments")
+    n = 0
+
+    def coef(name, shape, count):
+        t = terminal(name, shape, "Coefficient")
+        t.tags.update(count=lambda: count, _count=count)
+        return t
+
+    def arg(name, shape=()):
+        t = terminal(name, shape, "Argument")
+        t.tags.update(number=lambda: 1, part=lambda: None)
+        return t
+
+    def run_case(what, coefficient, argument, expect):
+        """expect: list of (coefficient node, expected direction T) in count order"""
+        nonlocal n
+        H = CtorHarness(ctx)
+        ip = H.ip
+        ip.class_models["ExprList"] = lambda *ops: Obj("ExprList", ufl_class="ExprList", ufl_operands=tuple(ops))
+        ip.overrides["np"] = Obj("numpy", ndindex=lambda *shape: list(_it.product(*[range(d) for d in (shape[0] if len(shape) == 1 and isinstance(shape[0], (tuple, list)) else shape)])))
+        try:
+            cs, as_ = ip.call_function(fn, [None, coefficient, argument], {})
+        except LiftRaise as ex:
+            rep.violation("C02-pair", fn, what, f"{what}: raises {ex.what[:120]}")
+            return
+        cs, as_ = cs.attrs["ufl_operands"], as_.attrs["ufl_operands"]
+        n += 1
+        if len(cs) != len(expect) or any(c is not e[0] for c, e in zip(cs, expect)):
+            rep.violation("C02-pair", fn, what, f"{what}: coefficients returned {[getattr(c, 'name', c) for c in cs]}, expected {[e[0].name for e in expect]} (sorted by count)")
+            return
+        for (c, want), got in zip(expect, as_):
+            ok, how, wit = equal_T(as_T(got), want, rng=ctx.rng)
+            if not ok:
+                rep.violation("C02-pair", fn, what, f"{what}: the direction paired with {c.name} is not the argument placed in the requested component(s) ({how}): {wit}", witness=wit)
+                return
+        rep.ok("C02-pair", fn, f"{what}: directions carry the arguments in exactly the requested components")
+
+    def unit(shape, entries):
+        """tensor of `shape` with the given {component: scalar T} entries and zero elsewhere"""
+        data = {}
+        for c in _it.product(*[range(d) for d in shape]):
+            data[(c, ())] = as_T(entries[c]).get() if c in entries else uflsem.T.zero(()).get()
+        return T(shape, [], [], data)
+
+    for shape in ((2,), (3,), (2, 3), (3, 2), (2, 2, 2)):
+        f = coef("f", shape, 5)
+        comps = list(_it.product(*[range(d) for d in shape]))
+        # one fixed component at a time
+        for c in comps:
+            v = arg("v")
+            run_case(f"derivative(F, f{shape}[{','.join(map(str, c))}], v)", uflmodel.m_indexed(f, MI(c)), v, [(f, unit(shape, {c: v}))])
+        # a tuple of components with a tuple of arguments
+        for c1, c2 in list(_it.combinations(comps, 2))[:: max(1, len(comps) // 3)]:
+            v1, v2 = arg("v1"), arg("v2")
+            run_case(f"derivative(F, (f{shape}[{c1}], f{shape}[{c2}]), (v1, v2))", [uflmodel.m_indexed(f, MI(c1)), uflmodel.m_indexed(f, MI(c2))], [v1, v2], [(f, unit(shape, {c1: v1, c2: v2}))])
+    # whole coefficients, several coefficients in non-count order, mixed whole / component
+    f, g = coef("f", (2,), 7), coef("g", (), 3)
+    vf, vg = arg("vf", (2,)), arg("vg")
+    run_case("derivative(F, f, vf)", f, vf, [(f, vf)])
+    run_case("derivative(F, (f, g), (vf, vg))  (returned in count order)", [f, g], [vf, vg], [(g, vg), (f, vf)])
+    h = coef("h", (2, 2), 1)
+    vh = arg("vh")
+    run_case("derivative(F, (f, h[1,0]), (vf, vh))", [f, uflmodel.m_indexed(h, MI((1, 0)))], [vf, vh], [(h, unit((2, 2), {(1, 0): vh})), (f, vf)])
+    if n < 30:
+        raise AnalysisError(f"only {n} derivative-argument cases lifted")
+
+
 def run(ctx) -> Report:
     rep = Report("C02")
     check_tables(ctx, rep, "C02", RULESETS)
+    derivative_arguments(ctx, rep)
     lifted = calc_instances(ctx, rep, "GateauxDerivativeRuleset", "C02", var_shapes=((), (2,)) + (((2, 2),) if ctx.thorough() else ()))
     gateaux_terminals(ctx, rep)
     check_memo_keys(ctx, rep, "C02-key", [MOD])
@@ -401,7 +477,7 @@ def run(ctx) -> Report:
     rep.assumptions = [
         "reference semantics of UFL nodes as in sa/uflmodel.py; calculus table in sa/adlift.py",
         "free-index plumbing is instantiated for ranks <= 2 and variable shapes (), (2,) [(2,2) in the thorough tier]",
-        "not decided: pairing of coefficients and directions in _handle_derivative_arguments (formoperators.py), BaseFormOperator rules, "
+        "not decided: automatic creation of arguments in _handle_derivative_arguments (mixed spaces / split), BaseFormOperator rules, "
         "component-wise variations in the Gateaux Grad rule beyond the instances lifted",
     ]
     return rep
